@@ -21,13 +21,28 @@ RULE = ("Homogeneous domain: 1-4 distinct equilibria of a pool of 17 acid/base/c
         "MX(s) = M + X (NaCl, AgCl, BaSO4, KNO3; CaF2 in 'precipitation_1_2'), Ksp = 10^U(-4, 0), initial amounts "
         "10^U(-3, 1) or zero in five shapes, chains (Lin,), (Log,), (Log, Lin) with rref_preserv=True, tol=1e-12 as in "
         "the repository's test, the reaction written as dissolution (K = Ksp) or as precipitation (K = 1/Ksp).  "
-        "Non-trivial = at least two equilibria sharing a species and success reported, or a precipitation case that "
-        "ends with solid present; distinct by case digest.")
+        "'precipitation_near*': the same systems started *near saturation*: total cation C = 10^U(-3, 1), total anion "
+        "A = (Ksp (1 + delta) / C)^(1/n) (inside [1e-3, 10] as well), so that the ion product of the all-dissolved state "
+        "is Ksp (1 + delta), delta of either sign with |delta| log-uniform in [1e-9, 1e-2]; none or 0.1-99.9 % of the "
+        "largest possible amount of solid present initially; same chains, same oracle.  'series': the homogeneous "
+        "domain (1-3 equilibria) through EqSystem.roots (one varied substance; chains default, (Log, Lin), (Lin,)) and "
+        "EqSystem.solve(init_concs, varied) (one or two varied substances), 2-4 values 10^U(-6, 0) per varied substance "
+        "in arbitrary (unsorted) order, two varied keys handed over in substance order or reversed; every grid point "
+        "flagged success-and-sane is judged like a single solve against its own initial state (base state with the "
+        "varied entries replaced), the axes being the ones chempy names (result.varied_keys), and the result arrays "
+        "must have one entry per grid point.  "
+        "Non-trivial = at least two equilibria sharing a species and success reported; a precipitation case that "
+        "ends with solid present, or a near-saturation case that starts supersaturated and ends without solid; a "
+        "series with at least two judged grid points; distinct by case digest.")
 ASSUMPTIONS = ["vlib/gen_c07.py COMP table and pool reactions (asserted balanced at import)",
                "the oracle evaluates Q and the totals of the returned float64 vector with mpmath (30 digits), so the "
                "judgement itself adds no rounding",
                "numerical work is delegated to pyneqsys/scipy (MINPACK); a run without `success and sane`, or an "
-               "exception from the solver stack, is inconclusive (counted), never a violation"]
+               "exception from the solver stack, is inconclusive (counted), never a violation (in 'series' an exception "
+               "with no pyneqsys/scipy/numpy frame in its traceback is chempy's own and is reported)",
+               "the known-finding signature fields (solver_own_residual, own_over_oracle, last_stage_success, "
+               "lsq_stationarity) only classify a failure the oracle has already established; they never excuse one "
+               "unless an open entry of known_findings.d/C08.json names that exact signature"]
 
 Q_RTOL = 1e-6        # |Q/K - 1|.  The solvers are run with their default tol=1e-8 (1e-12 for precipitation), a *step*
 #                      criterion on the internal variables (ln c for NumSysLog: |ln c| <= 37, so an accepted step can move a
